@@ -231,7 +231,7 @@ static void prop_solve(Tape &t, Ctx &c) {
         try { body(); }
         catch (const std::runtime_error &e) {
             std::string w = e.what();
-            if (!conv && dynamic_cast<const vf::Fail *>(&e) == nullptr && w.find("BiCGStab") != std::string::npos) { c.label(std::string("breakdown:") + name); return; }
+            if (dynamic_cast<const vf::Fail *>(&e) == nullptr && w.find("in BiCGStab") != std::string::npos) { c.label(std::string(conv ? "breakdown(model):" : "breakdown:") + name); return; } // see the triage note in c13_common.hpp
             throw;
         }
     };
